@@ -101,6 +101,8 @@ func propC01(c *Ctx) {
 	idx := 0
 	for _, st := range allSuites() {
 		for _, role := range []message.Role{message.Role_Initiator, message.Role_Responder} {
+			var k *saKeys
+			var lsa *longSA
 			for i := 0; i < perSuite; i++ {
 				var sx *Sx
 				if i == 0 {
@@ -108,10 +110,13 @@ func propC01(c *Ctx) {
 				} else {
 					sx = g.protMsg()
 				}
-				k := g.saKeys(st)
+				if i%5 == 0 { // one SA object (and one peer object per header mode) serves 5 consecutive messages
+					k = g.saKeys(st)
+					lsa = &longSA{sender: newSA(k), peers: [2]*security.IKESAKey{newSA(k), newSA(k)}}
+				}
 				rnd := g.keyBytesRandom(32)
 				idx++
-				c.c01Case(s, k, role, sx, rnd, idx, &corr)
+				c.c01Case(s, k, lsa, role, sx, rnd, idx, &corr)
 			}
 		}
 	}
@@ -129,14 +134,19 @@ func propC01(c *Ctx) {
 	c.correspond(sc, corr)
 }
 
-func (c *Ctx) c01Case(s *SuiteStat, k *saKeys, role message.Role, sx *Sx, rnd []byte, idx int, corr *[]corrCase) {
+// SA objects that live across several messages of one (suite, role, keys) group
+type longSA struct {
+	sender *security.IKESAKey
+	peers  [2]*security.IKESAKey
+}
+
+func (c *Ctx) c01Case(s *SuiteStat, k *saKeys, lsa *longSA, role message.Role, sx *Sx, rnd []byte, idx int, corr *[]corrCase) {
 	m := buildMsg(sx)
 	want := renderMsg(m).String()
 	nontr := len(sx.List[2].List) > 0
 	caseText := fmt.Sprintf("protect %s %s %s %s", k.line(), roleName(role), hx(rnd), sx.String())
 	s.add(caseText, nontr, "suite:"+k.st.String(), "role:"+roleName(role), fmt.Sprintf("npayloads:%d", min(len(sx.List[2].List), 9)))
-	sa := newSA(k)
-	pres, _ := protect(sa, m, role, rnd, -1)
+	pres, _ := protect(lsa.sender, m, role, rnd, -1)
 	if corr != nil && len(caseText) < 20000 {
 		*corr = append(*corr, corrCase{line: caseText, goRes: pres.String(), nontr: nontr, tags: []string{"op:protect"}})
 	}
@@ -146,8 +156,11 @@ func (c *Ctx) c01Case(s *SuiteStat, k *saKeys, role message.Role, sx *Sx, rnd []
 		return
 	}
 	bs := unhx(pres.val)
-	for _, withHdr := range []bool{false, true} {
-		peer := newSA(k)
+	for hi, withHdr := range []bool{false, true} {
+		peer := lsa.peers[hi]
+		if (idx+hi)%2 == 0 {
+			peer = newSA(k) // a freshly built peer and a long-lived one must both accept
+		}
 		ur := unprotect(peer, bs, !role, withHdr)
 		if corr != nil && len(bs) < 8000 {
 			*corr = append(*corr, corrCase{line: unprotLine(k, !role, withHdr, bs), goRes: ur.String(), nontr: nontr, tags: []string{"op:unprotect"}})
@@ -368,14 +381,19 @@ func propC06(c *Ctx) {
 	per := c.n(12, 600)
 	for _, st := range allSuites() {
 		for _, role := range []message.Role{message.Role_Initiator, message.Role_Responder} {
+			var k *saKeys
+			var lsa *longSA
 			for i := 0; i < per; i++ {
 				idx++
-				k := g.saKeys(st)
+				if i%4 == 0 { // one sender / receiver object serves 4 consecutive messages
+					k = g.saKeys(st)
+					lsa = &longSA{sender: newSA(k), peers: [2]*security.IKESAKey{newSA(k), newSA(k)}}
+				}
 				sx := g.protMsg()
 				if i == 0 {
 					sx = L(A("msg"), g.header(), L())
 				}
-				c.c06Case(s, s2, g, k, role, sx, idx, &corr)
+				c.c06Case(s, s2, g, k, lsa, role, sx, idx, &corr)
 			}
 		}
 	}
@@ -384,7 +402,7 @@ func propC06(c *Ctx) {
 	c.correspond(sc, corr)
 }
 
-func (c *Ctx) c06Case(s, s2 *SuiteStat, g *Gen, k *saKeys, role message.Role, sx *Sx, idx int, corr *[]corrCase) {
+func (c *Ctx) c06Case(s, s2 *SuiteStat, g *Gen, k *saKeys, lsa *longSA, role message.Role, sx *Sx, idx int, corr *[]corrCase) {
 	nontr := len(sx.List[2].List) > 0
 	m := buildMsg(sx)
 	want := renderMsg(m).String()
@@ -401,7 +419,7 @@ func (c *Ctx) c06Case(s, s2 *SuiteStat, g *Gen, k *saKeys, role message.Role, sx
 	rnd := g.keyBytesRandom(32)
 	caseText := fmt.Sprintf("protect %s %s %s %s", k.line(), roleName(role), hx(rnd), sx.String())
 	s.add(caseText, nontr, "suite:"+k.st.String(), "role:"+roleName(role))
-	pres, rd := protect(newSA(k), m, role, rnd, -1)
+	pres, rd := protect(lsa.sender, m, role, rnd, -1)
 	if pres.kind != "ok" {
 		c.violate(Violation{Suite: s.Name, Kind: "property", Index: idx, Class: "protect-fails", Desc: "EncodeEncrypt failed", Input: caseText, Expected: "ok", Actual: pres.String()})
 		return
@@ -455,8 +473,12 @@ func (c *Ctx) c06Case(s, s2 *SuiteStat, g *Gen, k *saKeys, role message.Role, sx
 		if len(rb) > 65535 {
 			continue
 		}
-		for _, withHdr := range []bool{false, true} {
-			ur := unprotect(newSA(k), rb, !role, withHdr)
+		for hi, withHdr := range []bool{false, true} {
+			peer := lsa.peers[hi]
+			if (idx+hi+pl)%2 == 0 {
+				peer = newSA(k)
+			}
+			ur := unprotect(peer, rb, !role, withHdr)
 			line := unprotLine(k, !role, withHdr, rb)
 			s2.add(line, nontr, fmt.Sprintf("padlen:%d", pl/16*16))
 			if corr != nil && len(rb) < 6000 && withHdr {
